@@ -307,3 +307,121 @@ Definition check_swap (c : swap_case) : result :=
   (ok, ok, if 1 <? w_lists c then (1 + bN many 1 + bN big 2)%N else 0%N, 0%N).
 
 Definition explain_swap (c : swap_case) := (w_expected c, 0, 0).
+
+(** ** group watch: the real watchServers driven by a registry double.
+    [t_reports] = the successful listing answers of the registry (what service discovery
+    reported, in order); [t_points] = (number of reports so far, the pool's list sorted by URL)
+    after start-up and after every step; [t_tail] = the final selections, as a pool-group op list
+    ([OUse last-report final-list] followed by requests). *)
+Record watch_case := { t_policy : string; t_hkey : string; t_tags : list string;
+                       t_static : list (string * Z); t_valid : bool;
+                       t_reports : list (list instance);
+                       t_points : list (nat * list (string * Z));
+                       t_tail : list pop }.
+
+Definition points_ok (static : list server) (tags : list string) (reports : list (list instance))
+           (pts : list (nat * list (string * Z))) : bool :=
+  forallb (fun '(n, l) => perm_eqb (map unsrv (watch_list static tags (firstn n reports))) l) pts.
+
+Definition watch_pool_case (c : watch_case) : pool_case :=
+  {| p_policy := t_policy c; p_hkey := t_hkey c; p_tags := t_tags c; p_static := t_static c; p_svc := true;
+     p_valid := t_valid c; p_init := t_static c; p_ops := t_tail c |}.
+
+Definition check_watch (pinned : quirks) (c : watch_case) : result :=
+  let '(corr, prop, cls, att) := check_pool pinned (watch_pool_case c) in
+  let pts := points_ok (map srv (t_static c)) (t_tags c) (t_reports c) (t_points c) in
+  let ok := pts && t_valid c in
+  (corr && ok, prop && ok,
+   (if t_valid c then
+      let multi := Nat.ltb 2 (List.length (t_reports c)) in
+      let fb := existsb (fun r => match tagged (t_tags c) r with [] => true | _ => false end) (t_reports c) in
+      1 + bN multi 1 + bN fb 2 + (cls mod 8) * 4
+    else 0)%N, att).
+
+Definition explain_watch (pinned : quirks) (c : watch_case) :=
+  (map (fun '(n, _) => map unsrv (watch_list (map srv (t_static c)) (t_tags c) (firstn n (t_reports c)))) (t_points c),
+   explain_pool pinned (watch_pool_case c)).
+
+(** ** group retry: one request with a retry policy; the list is replaced (useService) while
+    send number [y_at] is in flight.  Model: every attempt loads the pool's balancer anew. *)
+Record retry_case := { y_policy : string; y_hkey : string; y_tags : list string; y_static : list (string * Z);
+                       y_valid : bool;
+                       y_old : list instance; y_new : list instance;
+                       y_oldlist : list (string * Z); y_newlist : list (string * Z);   (* observed order *)
+                       y_at : Z; y_max : nat; y_failing : list string;
+                       y_hname : string; y_hval : string; y_key : string;
+                       y_sends : list string; y_status : Z; y_res : string }.
+
+(** returns (sends, final status, final result) *)
+Fixpoint retry_model (q : quirks) (p : policy) (key : string) (failing : list string) (at_ : Z)
+         (newl : list server) (cur : list server) (ctr : Z) (nsend : Z) (fuel : nat)
+         (last : Z * string) : list string * (Z * string) :=
+  match fuel with
+  | O => ([], last)
+  | S fuel' =>
+      match choose q p cur {| tk := ctr; dr := 0; ky := key |} with
+      | Chosen i =>
+          match nth_error cur (Z.to_nat i) with
+          | Some s =>
+              let nsend' := nsend + 1 in
+              let replaced := nsend' =? at_ in
+              let cur' := if replaced then newl else cur in
+              let ctr' := if replaced then 0 else (ctr + 1) mod two64 in
+              if str_in (s_url s) failing then
+                let '(ss, fin) := retry_model q p key failing at_ newl cur' ctr' nsend' fuel' (503, "serverError"%string) in
+                (s_url s :: ss, fin)
+              else ([s_url s], (200, ""%string))
+          | None => ([], (-9, "bad-index"%string))
+          end
+      | NoServer => retry_model q p key failing at_ newl cur ctr nsend fuel' (503, "internalError"%string)
+      | Panic => ([], (-2, "panic"%string))
+      end
+  end.
+
+Fixpoint split_at (n : nat) (l : list string) : list string * list string :=
+  match n, l with
+  | O, _ => ([], l)
+  | S n', x :: t => let '(a, b) := split_at n' t in (x :: a, b)
+  | S _, [] => ([], [])
+  end.
+
+Definition retry_picks (d : list server) (key : string) (sends : list string) : list (string * Z) :=
+  map (fun u => (key, index_of u d 0)) sends.
+
+Definition check_retry (pinned : quirks) (c : retry_case) : result :=
+  let p := policy_of_string (y_policy c) in
+  let static := map srv (y_static c) in
+  if negb (y_valid c) then (false, true, 0%N, 0%N) else
+  let d_old := pool_list static (tagged (y_tags c) (y_old c)) in
+  let d_new := pool_list static (tagged (y_tags c) (y_new c)) in
+  let lists_ok :=
+      (match tagged (y_tags c) (y_old c) with
+       | [] => list_eqb sz_eqb (y_oldlist c) (map unsrv static)
+       | tg => perm_eqb (map unsrv tg) (y_oldlist c) end) &&
+      (if (0 <? y_at c) && (y_at c <=? Z.of_nat (List.length (y_sends c))) then
+         match tagged (y_tags c) (y_new c) with
+         | [] => list_eqb sz_eqb (y_newlist c) (map unsrv static)
+         | tg => perm_eqb (map unsrv tg) (y_newlist c) end
+       else true) in
+  let '(ms, fin) := retry_model pinned p (y_key c) (y_failing c) (y_at c) (map srv (y_newlist c))
+                                (map srv (y_oldlist c)) 0 0 (y_max c) (503, "internalError"%string) in
+  let corr := lists_ok && list_eqb String.eqb ms (y_sends c) && (fst fin =? y_status c) && String.eqb (snd fin) (y_res c) &&
+              key_ok p (y_hkey c) (y_hname c) (y_hval c) (y_key c) in
+  (* property on the observed attempts: sends 1..at were selected while the old list was current,
+     later sends after the replacement had returned: they must be members of the NEW list *)
+  let nold := if y_at c =? 0 then List.length (y_sends c) else Z.to_nat (y_at c) in
+  let '(s1, s2) := split_at nold (y_sends c) in
+  let final_list := match s2 with [] => if (0 <? y_at c) && (y_at c =? Z.of_nat (List.length s1)) then d_new else d_old | _ => d_new end in
+  let prop := prop_sel p (weights d_old) 0 (retry_picks d_old (y_key c) s1) &&
+              prop_sel p (weights d_new) 0 (retry_picks d_new (y_key c) s2) &&
+              (* failed for lack of a server only when the list is empty; never a panic *)
+              (if String.eqb (y_res c) "internalError" then match final_list with [] => true | _ => false end else true) &&
+              negb (y_status c =? -2) in
+  let after := match s2 with [] => false | _ => true end in
+  let repl := (0 <? y_at c) && (y_at c <=? Z.of_nat (List.length (y_sends c))) in
+  let ok200 := y_status c =? 200 in
+  (corr, prop, (1 + bN repl 1 + bN after 2 + bN ok200 4 + policy_idx p * 8)%N, 0%N).
+
+Definition explain_retry (pinned : quirks) (c : retry_case) :=
+  retry_model pinned (policy_of_string (y_policy c)) (y_key c) (y_failing c) (y_at c) (map srv (y_newlist c))
+              (map srv (y_oldlist c)) 0 0 (y_max c) (503, "internalError"%string).
